@@ -10,6 +10,7 @@ import PM.Monitor
 import Proofs.StepToks
 import Proofs.Respects
 import Props.C01
+import Proofs.StructEdit
 namespace PM.C12
 open PM
 
@@ -95,5 +96,244 @@ theorem structural_keeps_content (S : Schema) (doc doc' : Node) (st : Step)
 theorem structural_valid (S : Schema) (doc doc' : Node) (st : Step) (hd : C01.Valid S doc)
     (hp : C01.PayloadValid S doc st) (h : S.apply st doc = .ok doc') : C01.Valid S doc' :=
   C01.apply_valid S st doc doc' hd hp h
+
+/-! ### the four builders (PM/StructEdit.lean) emit structure-only steps -/
+
+/-- the static requirements of `structural_keeps_content` on a step: structure flag set, slice made of
+    open/close tokens only, positions ordered (`isStructuralAt`, which does not look at the document),
+    and for a replace-around step a well-formed slice with `insert ≤ size` -/
+def StructuralStep (st : Step) : Prop :=
+  (∀ doc, isStructuralAt doc st = true) ∧
+  ∀ f t gf gt sl i b, st = .replaceAround f t gf gt sl i b → sl.wf = true ∧ (i : Int) ≤ sl.size
+
+/-- the document-dependent part of the structure guard (`content_between` finds nothing in the replaced
+    ranges) is implied by "the step applies": `structural_keeps_content` needs nothing else -/
+theorem structuralStep_keeps_content (S : Schema) (doc doc' : Node) (st : Step) (hs : StructuralStep st)
+    (h : S.apply st doc = .ok doc') :
+    (ftoks doc'.kids).filter Tok.isContent = (ftoks doc.kids).filter Tok.isContent :=
+  structural_keeps_content S doc doc' st (hs.1 doc) hs.2 h
+
+/-- **join** builds a structure-only step -/
+theorem join_structural (pos depth : Nat) (st : Step) (h : joinStep pos depth = .ok st) :
+    StructuralStep st := by
+  unfold joinStep at h
+  split at h
+  · simp at h
+  · simp only [Except.ok.injEq] at h
+    subst h
+    refine ⟨fun doc => ?_, fun f t gf gt sl i b e => by simp at e⟩
+    simp only [isStructuralAt, isStructural, sliceToks'_empty, structuralOnly, List.all_nil, Bool.and_self,
+      Bool.true_and, decide_eq_true_eq]
+    omega
+
+/-- **split** builds a structure-only step (two copies of the nest of ancestors, open by `depth` on both
+    sides); the slice is well-formed -/
+theorem split_structural (doc : Node) (pos depth : Nat) (st : Step) (hdoc : doc.isLeaf = false)
+    (h : splitStep doc pos depth = .ok st) :
+    StructuralStep st ∧ ∃ sl, st = .replace pos pos sl true ∧ sl.wf = true ∧ sl.size = 2 * (depth : Int) := by
+  unfold splitStep at h
+  cases hr : doc.resolve pos with
+  | none => simp [hr] at h
+  | some r =>
+    simp only [hr] at h
+    cases hn : splitNodes r depth with
+    | none => simp [hn] at h
+    | some nodes =>
+      simp only [hn, Except.ok.injEq] at h
+      subst h
+      obtain ⟨hlen, hel⟩ := splitNodesFrom_spec hr hdoc depth _ nodes hn
+      have N := nestOut_nest nodes hel
+      rw [hlen] at N
+      refine ⟨⟨fun d => ?_, fun f t gf gt sl i b e => by simp at e⟩, _, rfl, nests_wf N N, ?_⟩
+      · simp only [isStructuralAt, isStructural, sliceToks'_nests N N, Bool.and_self, Bool.true_and,
+          decide_eq_true_eq]
+        exact Nat.le_refl _
+      · rw [nests_size N N]; omega
+
+/-- **lift** builds a structure-only replace-around step: `before` and `after` are nests of empty copies
+    of the ancestors that have to be split, the gap is the range, `insert` lies between them.
+    (`a ≤ b`: the range's `from` is not after its `to`, as for every `NodeRange` of `block_range`.) -/
+theorem lift_structural (doc : Node) (a b depth target : Nat) (st : Step) (hab : a ≤ b)
+    (h : liftStep doc a b depth target = .ok st) : StructuralStep st := by
+  unfold liftStep at h
+  cases hf : doc.resolve a with
+  | none => simp [hf] at h
+  | some f =>
+    cases ht : doc.resolve b with
+    | none => simp [hf, ht] at h
+    | some t =>
+      simp only [hf, ht] at h
+      unfold liftStepR at h
+      cases hb : f.before (depth + 1) with
+      | none => simp [hb] at h
+      | some gs =>
+        cases hafter : t.after (depth + 1) with
+        | none => simp [hb, hafter] at h
+        | some ge =>
+          simp only [hb, hafter] at h
+          have Rf := resolve_resolved hf
+          have Rt := resolve_resolved ht
+          have h1 := Rf.before_le depth gs hb
+          have h2 := Rt.le_after depth ge hafter
+          have hdf : depth ≤ f.depth := by
+            unfold RPos.before at hb
+            simp only [Nat.add_eq_zero_iff, Nat.succ_ne_self, and_false, if_false] at hb
+            split at hb
+            · omega
+            · split at hb
+              · omega
+              · simp at hb
+          have hdt : depth ≤ t.depth := by
+            unfold RPos.after at hafter
+            simp only [Nat.add_eq_zero_iff, Nat.succ_ne_self, and_false, if_false] at hafter
+            split at hafter
+            · omega
+            · split at hafter
+              · omega
+              · simp at hafter
+          have NL := liftSide_nest f.node (fun d => decide (0 < f.index d)) target (depth - target) [] 0 0 false
+            (fun d h1 h2 => by
+              obtain ⟨k, rfl⟩ : ∃ k, d = k + 1 := ⟨d - 1, by omega⟩
+              obtain ⟨ty, at_, m, kids, e⟩ := resolve_node_elem hf k (by omega)
+              rw [e]; rfl) .nil
+          have NR := liftSide_nest t.node (fun d => decide (t.afterT (d + 1) < t.end_ d)) target
+            (depth - target) [] 0 0 false
+            (fun d h1 h2 => by
+              obtain ⟨k, rfl⟩ : ∃ k, d = k + 1 := ⟨d - 1, by omega⟩
+              obtain ⟨ty, at_, m, kids, e⟩ := resolve_node_elem ht k (by omega)
+              rw [e]; rfl) .nil
+          generalize liftSide f.node (fun d => decide (0 < f.index d)) target (depth - target) [] 0 0 false = L at h NL
+          generalize liftSide t.node (fun d => decide (t.afterT (d + 1) < t.end_ d)) target
+            (depth - target) [] 0 0 false = R at h NR
+          obtain ⟨before, os, ml⟩ := L
+          obtain ⟨after, oe, mr⟩ := R
+          simp only [Except.ok.injEq] at h
+          subst h
+          simp only at NL NR
+          refine ⟨fun d => ?_, fun f' t' gf gt sl i b' e => ?_⟩
+          · simp only [isStructuralAt, isStructural, sliceToks'_nests NL NR, Bool.and_self, Bool.true_and,
+              Bool.and_eq_true, decide_eq_true_eq]
+            omega
+          · simp only [Step.replaceAround.injEq] at e
+            obtain ⟨_, _, _, _, rfl, rfl, _⟩ := e
+            refine ⟨nests_wf NL NR, ?_⟩
+            rw [nests_size NL NR, NL.fsize]
+            omega
+
+/-- **wrap** builds a structure-only replace-around step: the slice is the nest of the (non-leaf)
+    wrappers, closed on both sides, the range sits in its innermost node -/
+theorem wrap_structural (S : Schema) (doc : Node) (a b depth : Nat) (ws : List (TypeId × Attrs)) (st : Step)
+    (hab : a ≤ b) (hl : ∀ w ∈ ws, (S.nodeType w.1).isLeaf = false)
+    (h : wrapStep S doc a b depth ws = .ok st) : StructuralStep st := by
+  unfold wrapStep at h
+  cases hf : doc.resolve a with
+  | none => simp [hf] at h
+  | some f =>
+    cases ht : doc.resolve b with
+    | none => simp [hf, ht] at h
+    | some t =>
+      simp only [hf, ht] at h
+      unfold wrapStepR at h
+      cases hc : wrapContent S ws with
+      | error e => simp [hc] at h
+      | ok content =>
+        cases hb : f.before (depth + 1) with
+        | none => simp [hc, hb] at h
+        | some gs =>
+          cases hafter : t.after (depth + 1) with
+          | none => simp [hc, hb, hafter] at h
+          | some ge =>
+            simp only [hc, hb, hafter, Except.ok.injEq] at h
+            subst h
+            have h1 := (resolve_resolved hf).before_le depth gs hb
+            have h2 := (resolve_resolved ht).le_after depth ge hafter
+            have N := wrapContent_nest S ws content hl hc
+            have e0 : content = fappend content [] := by simp [fappend]
+            refine ⟨fun d => ?_, fun f' t' gf gt sl i b' e => ?_⟩
+            · have hs : structuralOnly (sliceToks' ⟨content, 0, 0⟩) = true := by
+                rw [e0]; exact sliceToks'_nests N .nil 0 0
+              simp only [isStructuralAt, isStructural, hs, Bool.and_self, Bool.true_and,
+                Bool.and_eq_true, decide_eq_true_eq]
+              omega
+            · simp only [Step.replaceAround.injEq] at e
+              obtain ⟨_, _, _, _, rfl, rfl, _⟩ := e
+              simp only [Slice.wf, Slice.size, N.fsize, Nat.zero_le, decide_true, Bool.and_self, true_and]
+              omega
+
+/-! ### corollaries: if the built step applies, the text and leaf nodes are exactly preserved -/
+
+theorem join_keeps_content (S : Schema) (doc doc' : Node) (pos depth : Nat) (st : Step)
+    (hb : joinStep pos depth = .ok st) (h : S.apply st doc = .ok doc') :
+    (ftoks doc'.kids).filter Tok.isContent = (ftoks doc.kids).filter Tok.isContent :=
+  structuralStep_keeps_content S doc doc' st (join_structural pos depth st hb) h
+
+/-- a replace step only applies to an element node -/
+theorem apply_replace_doc_elem (S : Schema) (doc doc' : Node) (f t : Nat) (sl : Slice) (b : Bool)
+    (h : S.apply (.replace f t sl b) doc = .ok doc') : doc.isLeaf = false := by
+  cases doc with
+  | elem => rfl
+  | text s m =>
+    exfalso
+    unfold Schema.apply at h
+    simp only [Schema.fromReplace, Schema.replace] at h
+    repeat' split at h
+    all_goals simp at h
+  | leaf ty a m =>
+    exfalso
+    unfold Schema.apply at h
+    simp only [Schema.fromReplace, Schema.replace] at h
+    repeat' split at h
+    all_goals simp at h
+
+theorem split_keeps_content (S : Schema) (doc doc' : Node) (pos depth : Nat) (st : Step)
+    (hb : splitStep doc pos depth = .ok st) (h : S.apply st doc = .ok doc') :
+    (ftoks doc'.kids).filter Tok.isContent = (ftoks doc.kids).filter Tok.isContent := by
+  have hdoc : doc.isLeaf = false := by
+    have hb' := hb
+    unfold splitStep at hb'
+    cases hr : doc.resolve pos with
+    | none => simp [hr] at hb'
+    | some r =>
+      cases hn : splitNodes r depth with
+      | none => simp [hr, hn] at hb'
+      | some nodes =>
+        simp only [hr, hn, Except.ok.injEq] at hb'
+        subst hb'
+        exact apply_replace_doc_elem S doc doc' _ _ _ _ h
+  exact structuralStep_keeps_content S doc doc' st (split_structural doc pos depth st hdoc hb).1 h
+
+theorem lift_keeps_content (S : Schema) (doc doc' : Node) (a b depth target : Nat) (st : Step) (hab : a ≤ b)
+    (hb : liftStep doc a b depth target = .ok st) (h : S.apply st doc = .ok doc') :
+    (ftoks doc'.kids).filter Tok.isContent = (ftoks doc.kids).filter Tok.isContent :=
+  structuralStep_keeps_content S doc doc' st (lift_structural doc a b depth target st hab hb) h
+
+theorem wrap_keeps_content (S : Schema) (doc doc' : Node) (a b depth : Nat) (ws : List (TypeId × Attrs))
+    (st : Step) (hab : a ≤ b) (hl : ∀ w ∈ ws, (S.nodeType w.1).isLeaf = false)
+    (hb : wrapStep S doc a b depth ws = .ok st) (h : S.apply st doc = .ok doc') :
+    (ftoks doc'.kids).filter Tok.isContent = (ftoks doc.kids).filter Tok.isContent :=
+  structuralStep_keeps_content S doc doc' st (wrap_structural S doc a b depth ws st hab hl hb) h
+
+/-! ### concrete instances of the hypotheses: `doc(blockquote(p("a"), p("b")))` -/
+
+private def exDoc : Node :=
+  .elem 0 [] [] [.elem 1 [] [] [.elem 2 [] [] [.text [97] []], .elem 2 [] [] [.text [98] []]]]
+
+private def exNT (name : String) (leaf : Bool) : NodeType :=
+  { name := name, isText := false, isInline := false, isLeaf := leaf, isAtom := leaf, inlineContent := false,
+    isolating := false, defining := false, code := false, dfa := #[⟨true, []⟩], markSet := none, attrs := [] }
+
+private def exSchema : Schema :=
+  { nodes := #[exNT "doc" false, exNT "blockquote" false, exNT "paragraph" false, exNT "text" true],
+    marks := #[], top := 0, textTy := 3 }
+
+/-- lifting the second paragraph out of the blockquote: the blockquote is split before it -/
+example : liftStep exDoc 6 7 1 0 = .ok (.replaceAround 4 8 4 7 ⟨[.elem 1 [] [] []], 1, 0⟩ 1 true) := by rfl
+/-- splitting inside the first paragraph, two levels deep -/
+example : splitStep exDoc 3 2 = .ok (.replace 3 3
+    ⟨[.elem 1 [] [] [.elem 2 [] [] []], .elem 1 [] [] [.elem 2 [] [] []]], 2, 2⟩ true) := by rfl
+example : joinStep 4 1 = .ok (.replace 3 5 Slice.empty true) := by rfl
+/-- wrapping the second paragraph in a blockquote -/
+example : wrapStep exSchema exDoc 5 6 1 [(1, [])] =
+    .ok (.replaceAround 4 7 4 7 ⟨[.elem 1 [] [] []], 0, 0⟩ 1 true) := by rfl
 
 end PM.C12
